@@ -22,6 +22,8 @@ import (
 
 	leader "github.com/ali-assar/NATS-Leader-Election/leader"
 	"github.com/nats-io/nats.go"
+	"github.com/prometheus/client_golang/prometheus"
+	"go.uber.org/zap"
 
 	"verifharness/h"
 )
@@ -502,6 +504,43 @@ func checkConfig(res *h.Result, c leader.ElectionConfig) {
 	}
 }
 
+// withOptionals sets the optional collaborators (which the statement does not make part of
+// validity: the verdict must not depend on them) in one of their 8 presence combinations.
+func withOptionals(c *leader.ElectionConfig, n int) {
+	if n&1 != 0 {
+		c.HealthChecker = nopHealth{}
+	}
+	if n&2 != 0 {
+		c.Logger = zapNop{}
+	}
+	if n&4 != 0 {
+		c.Metrics = nopMetrics{}
+	}
+}
+
+type nopHealth struct{}
+
+func (nopHealth) Check(context.Context) bool { return true }
+
+type zapNop struct{}
+
+func (zapNop) Debug(string, ...zap.Field) {}
+func (zapNop) Info(string, ...zap.Field)  {}
+func (zapNop) Warn(string, ...zap.Field)  {}
+func (zapNop) Error(string, ...zap.Field) {}
+func (zapNop) Fatal(string, ...zap.Field) {}
+
+type nopMetrics struct{}
+
+func (nopMetrics) SetIsLeader(float64, prometheus.Labels)                    {}
+func (nopMetrics) SetConnectionStatus(float64, prometheus.Labels)            {}
+func (nopMetrics) IncTransitions(prometheus.Labels)                          {}
+func (nopMetrics) IncFailures(prometheus.Labels)                             {}
+func (nopMetrics) IncAcquireAttempts(prometheus.Labels)                      {}
+func (nopMetrics) IncTokenValidationFailures(prometheus.Labels)              {}
+func (nopMetrics) ObserveHeartbeatDuration(time.Duration, prometheus.Labels) {}
+func (nopMetrics) ObserveLeaderDuration(time.Duration, prometheus.Labels)    {}
+
 func signs(c leader.ElectionConfig) string {
 	s := func(d time.Duration) string {
 		switch {
@@ -512,7 +551,11 @@ func signs(c leader.ElectionConfig) string {
 		}
 		return "pos"
 	}
-	return "VI=" + s(c.ValidationInterval) + ",GR=" + s(c.DisconnectGracePeriod)
+	o := "VI=" + s(c.ValidationInterval) + ",GR=" + s(c.DisconnectGracePeriod)
+	if c.HealthChecker != nil {
+		o += ",HC"
+	}
+	return o
 }
 
 func errField(err error) string {
@@ -554,6 +597,7 @@ func batchC16(res *h.Result, k int, full bool) {
 							for _, tk := range []bool{false, true} {
 								c := leader.ElectionConfig{Bucket: b, Group: g, InstanceID: i, HeartbeatInterval: hd, TTL: ttl,
 									ValidationInterval: vi, DisconnectGracePeriod: gr, MaxConsecutiveFailures: mcf, Priority: pr, AllowPriorityTakeover: tk}
+								withOptionals(&c, n)
 								checkConfig(res, c)
 								n++
 								if n%20011 == 1 && len(res.Samples) < 3 {
@@ -616,6 +660,7 @@ func batchC16Rand(res *h.Result, r *rand.Rand) {
 		c.TTL = pick(3)
 		c.ValidationInterval = pick(1)
 		c.DisconnectGracePeriod = pick(2)
+		withOptionals(&c, r.IntN(8))
 		checkConfig(res, c)
 		seen[fmt.Sprint(c.HeartbeatInterval, c.TTL, c.ValidationInterval, c.DisconnectGracePeriod, c.MaxConsecutiveFailures, c.Priority, c.AllowPriorityTakeover, len(c.Bucket), len(c.Group), len(c.InstanceID))] = true
 	}
